@@ -20,12 +20,19 @@ use crate::world::{Mode, Status, WorldResult, WorldSpec};
 
 pub struct C19;
 
-fn main_reads_before(res: &WorldResult, n_main: usize, seq: usize) -> usize {
-    res.log.iter().take(seq).filter(|e| e.kind == EvKind::Read && e.file < n_main && e.ret > 0).count()
+/// bytes of file `file` served by reads strictly before event `seq`
+fn served_bytes(res: &WorldResult, file: usize, seq: usize) -> usize {
+    res.log.iter().take(seq).filter(|e| e.kind == EvKind::Read && e.file == file && e.ret > 0).map(|e| e.off + e.ret as usize).max().unwrap_or(0)
 }
 
-fn joined_reads_from(res: &WorldResult, n_main: usize, seq: usize) -> usize {
-    res.log.iter().skip(seq).filter(|e| e.kind == EvKind::Read && e.file >= n_main && e.ret > 0).count()
+/// complete lines (newlines) of the given files served before event `seq`: counted in bytes, not in
+/// read calls, so that a reader with a small buffer (several reads per line) is judged the same way
+fn lines_served_before(res: &WorldResult, contents: &[(usize, &[u8])], seq: usize) -> usize {
+    contents.iter().map(|(file, data)| data[..served_bytes(res, *file, seq).min(data.len())].iter().filter(|b| **b == b'\n').count()).sum()
+}
+
+fn lines_served_from(res: &WorldResult, contents: &[(usize, &[u8])], seq: usize) -> usize {
+    lines_served_before(res, contents, res.log.len()) - lines_served_before(res, contents, seq)
 }
 
 impl Property for C19 {
@@ -159,6 +166,9 @@ impl Property for C19 {
         let all_lines: Vec<Vec<u8>> = files.iter().flat_map(|f| complete_lines(f)).collect();
         let n_main_files = if follow { 1 } else { files.len() };
         let case_hash = fnv(serde_json::to_string(case).unwrap().as_bytes());
+        let follow_content: Vec<u8> = gen::join_lines(&all_lines, true);
+        let main_contents: Vec<(usize, &[u8])> = if follow { vec![(0, &follow_content[..])] } else { files.iter().enumerate().map(|(i, f)| (i, &f[..])).collect() };
+        let joined_contents: Vec<(usize, &[u8])> = joined.as_ref().map(|j| vec![(n_main_files, &j[..])]).unwrap_or_default();
 
         let make_spec = |interrupt: Option<Interrupt>| -> WorldSpec {
             if follow {
@@ -246,7 +256,7 @@ impl Property for C19 {
                 fail(&mut out, "c19.no_termination", format!("still running after {} events", res.log.len()));
             } else if res.status != Status::Ok {
                 // a failure is the interruption's doing unless a plain run over the consumed lines fails the same way
-                let served = res.interrupted_at.map(|e| main_reads_before(&res, n_main_files, e)).unwrap_or(all_lines.len());
+                let served = res.interrupted_at.map(|e| lines_served_before(&res, &main_contents, e)).unwrap_or(all_lines.len());
                 let mut same = false;
                 for c in (0..=served.min(all_lines.len())).rev() {
                     match get_reference(&mut out, c) {
@@ -265,18 +275,18 @@ impl Property for C19 {
                     fail(&mut out, "c19.error_reported", format!("interrupted query reported: {}", status_label(&res.status)));
                 }
             } else if let Some(e) = res.interrupted_at {
-                let served_before = main_reads_before(&res, n_main_files, e);
+                let served_before = lines_served_before(&res, &main_contents, e);
                 if follow {
                     let recs = stdout_lines(&res);
                     // lines whose read happened before the interrupt may be printed, nothing later
                     if recs.len() > base_records.len() || recs[..] != base_records[..recs.len()] {
                         fail(&mut out, "c19.not_a_prefix", format!("printed {} which is not a prefix of the uninterrupted output {}", show(&recs), show(&base_records)));
                     } else {
-                        let allowed = lines_to_records(&base, served_before, &base_records);
+                        let allowed = lines_to_records(&base, &follow_content, served_before, &base_records);
                         if recs.len() > allowed {
                             fail(&mut out, "c19.consumed_after_interrupt", format!("{} records printed although only {} lines had been served before the interrupt", recs.len(), served_before));
                         }
-                        let later_lines = res.log.iter().skip(e).filter(|ev| ev.kind == EvKind::Read && ev.ret > 0).count();
+                        let later_lines = lines_served_from(&res, &main_contents, e);
                         if later_lines > 1 {
                             fail(&mut out, "c19.not_prompt", format!("follower fetched {} further lines after the interrupt (one is needed to notice it)", later_lines));
                         }
@@ -291,8 +301,8 @@ impl Property for C19 {
                         fail(&mut out, "c19.consumed_after_interrupt", format!("{} lines consumed although only {} had been served when the interrupt happened", c, limit));
                     } else if in_print && c != served_before {
                         fail(&mut out, "c19.consumed_after_interrupt", format!("interrupt inside the println of a record of line {}: {} lines consumed", served_before, c));
-                    } else if joined.is_some() && joined_reads_from(&res, n_main_files, e) > 11 {
-                        fail(&mut out, "c19.not_prompt", format!("{} further lines of the joined file were read after the interrupt (at most 10 + 1 allowed)", joined_reads_from(&res, n_main_files, e)));
+                    } else if joined.is_some() && lines_served_from(&res, &joined_contents, e) > 11 {
+                        fail(&mut out, "c19.not_prompt", format!("{} further lines of the joined file were read after the interrupt (at most 10 + 1 allowed)", lines_served_from(&res, &joined_contents, e)));
                     } else {
                         match get_reference(&mut out, c) {
                             None => {
@@ -362,17 +372,17 @@ pub fn stdout_lines(res: &WorldResult) -> Vec<String> {
 
 /// How many of the uninterrupted run's records stem from the first `lines` input lines
 /// (follow mode, lockstep writer: records are attributed through the event order).
-fn lines_to_records(base: &WorldResult, lines: usize, base_records: &[String]) -> usize {
-    // position in the base log after which `lines` complete lines had been served
-    let mut served = 0;
+fn lines_to_records(base: &WorldResult, content: &[u8], lines: usize, base_records: &[String]) -> usize {
+    // the read of the base run that completes line number `lines` + 1: everything printed before it
+    // stems from the first `lines` lines
     let mut cut = base.log.len();
     for (seq, e) in base.log.iter().enumerate() {
         if e.kind == EvKind::Read && e.ret > 0 {
-            if served == lines {
+            let after = (e.off + e.ret as usize).min(content.len());
+            if content[..after].iter().filter(|b| **b == b'\n').count() > lines {
                 cut = seq;
                 break;
             }
-            served += 1;
         }
     }
     // stdout bytes written before `cut`
